@@ -134,7 +134,7 @@ def r2_normaliser(ctx, res):
 
 
 _LEM = 'w.lemmatizer(form, pos) if w.lemmatizer else {}'
-_ITEMS = f'for ({{pos: {{form}}}} if not ({_LEM}) else {_LEM}).items()'
+_ITEMS = f'for (({_LEM}) if ({_LEM}) else {{pos: {{form}}}}).items()'
 _ENT = r'^#(\d+)\.append\(cls\(\*\$2, _wordnet=w\)\)$'
 
 
